@@ -503,6 +503,32 @@ def setup_shard():
         BUDGET["limit"], BUDGET["sympy"] = 10.0, 30.0
 
 
+def _shared_instances(c, text, st, mx, viol):
+    """object-API-only circuits in which one element or connection INSTANCE occurs more than once: the numeric route and the
+    symbolic expression must still describe the same circuit (every occurrence counts)"""
+    from pyimpspec import Circuit, Series, Parallel
+
+    els = c.get_elements(recursive=False) if "recursive" in c.get_elements.__code__.co_varnames else c.get_elements()
+    if not els:
+        return
+    a, b = els[0], els[-1]
+    forms = [("series-twice", lambda: Circuit(Series([a, a]))),
+             ("parallel-twice", lambda: Circuit(Series([Parallel([a, b, a])]))),
+             ("connection-twice", lambda: Circuit(Series([Parallel([a, b]), b] if a is b else [Series([Parallel([a, b])] * 2), a])))]
+    for name, make in forms:
+        try:
+            cc = make()
+        except Exception as ex:
+            viol.append({"key": f"C02/build-raised:{type(ex).__name__}", "msg": f"shared instance ({name}): {monitors.tb_tail(ex)}", "witness": {"cdc": text, "form": name}})
+            continue
+        st["shared_instance_circuits"] = st.get("shared_instance_circuits", 0) + 1
+        n0 = len(viol)
+        check_circuit(cc, f"shared instance ({name}) of {a.get_symbol()},{b.get_symbol()} from {text[:120]}", [0.02, 3.3, 510.0, 7.7e4], st, mx, viol,
+                      {"cdc": text, "form": name, "shared": cc.to_string(6)[:200]}, expect_refusal="may-be-masked-by-short")
+        for v in viol[n0:]:
+            v["key"] += ":shared-instance"
+
+
 def run_case(case):
     from pyimpspec import get_elements, parse_cdc
 
@@ -575,6 +601,8 @@ def run_case(case):
             w = {"cdc": text, "replay_case": {"kind": "cdc", "cdc": text} if not t.get("_objects_only") else {"kind": "tree", "tree": t}}
             check_circuit(c, text[:200], [0.02, 3.3, 510.0, 7.7e4], st, mx, viol, w,
                           expect_refusal="may-be-masked-by-short" if t.get("_objects_only") else None)
+            if j % 2 == 0:
+                _shared_instances(c, text, st, mx, viol)
             slow_decay = any((0.97 < G.dec(e["p"][k][0]) < 1.0 or G.dec(e["p"][k][0]) < 0.03) for e in G.iter_elements(t) for k in e["p"] if k in G.EXPONENT_KEYS)
             if j == 0 and n <= 3 and not slow_decay:
                 check_limits(c, "circuit " + G.brief(G.nf(t)), st, mx, viol, w)
